@@ -149,6 +149,22 @@ Theorem C11_cli_shapes : forall writable cache repair ls s,
 Proof. exact cli_shapes. Qed.
 Print Assumptions C11_cli_shapes.
 
+(* Reloading the store file (mount-index / chunk-server --store-file + SIGHUP): the chain built by mountIndexStore
+   (= MultiStoreWithCache) or by the read-only chunkServerStore (DedupQueue around it) is never a WriteStore, because
+   multiStoreWithRouter always wraps the locations in a StoreRouter, a single one too.  Hence Swap accepts every
+   reload, from every CLI shape to any new chain, and the chain in use afterwards is the newly built one. *)
+Theorem C11_cli_reload_accepted : forall (served : bool) cache repair ls (new : stack) w,
+  let old := if served then Dedup (multi_store_with_cache cache repair ls) else mount_index_store cache repair ls in
+  let t := {| t_mode := MSwapRO; t_cur := old |} in
+  fst (fst (exec t (OSwap new) w)) = RSwap true /\ t_cur (snd (fst (exec t (OSwap new) w))) = new.
+Proof. exact cli_reload_accepted. Qed.
+Print Assumptions C11_cli_reload_accepted.
+
+(* ... whereas a bare store in a SwapStore (what "return the single store as it is" would give) refuses it *)
+Example C11_example_bare_store_refuses_reload :
+  fst (fst (exec {| t_mode := MSwapRO; t_cur := Leaf 0 |} (OSwap (Router [Leaf 0; Leaf 1])) (init_world [] 0))) = RSwap false.
+Proof. reflexivity. Qed.
+
 (* ---- non-vacuity ---- *)
 Definition exm (c : list (id * (tag * bool))) (d : fault) : member := init_member c [] d.
 (* router over three members: the first lacks chunk 4, the second fails, the third has it: the failure aborts *)
